@@ -77,6 +77,7 @@ class AbstractBlock(CborArray):
         '''
         if self.crc_type_name is None or self.crc_value_name is None:
             return
+        self.__dict__.pop('_rx_octets', None)
 
         crc_type = self.getfieldval(self.crc_type_name)
         if crc_type == 0:
@@ -106,6 +107,19 @@ class AbstractBlock(CborArray):
             valid = crc_value is None
         else:
             defn = AbstractBlock.CRC_DEFN[crc_type]
+            rx_octets = getattr(self, '_rx_octets', None)
+            if rx_octets is not None:
+                # A received block is checked over the octets it came with,
+                # its re-encoding would hide damage that decodes to the
+                # same values (the CRC value is the last item of the block)
+                size = len(defn['encode'](0))
+                valid = (
+                    isinstance(crc_value, bytes)
+                    and len(crc_value) == size
+                    and rx_octets[-size:] == crc_value
+                    and defn['encode'](defn['func'](rx_octets[:-size] + bytes(size))) == crc_value
+                )
+                return valid
             # Encode with a zero-valued CRC field
             self.fields[self.crc_value_name] = defn['encode'](0)
             pre_crc = cbor2.dumps(self.build())
@@ -115,6 +129,11 @@ class AbstractBlock(CborArray):
             self.fields[self.crc_value_name] = crc_value
 
         return valid
+
+    def setfieldval(self, attr, val):
+        # the received octets no longer describe a block that was altered
+        self.__dict__.pop('_rx_octets', None)
+        return CborArray.setfieldval(self, attr, val)
 
 
 class PrimaryBlock(AbstractBlock):
